@@ -361,7 +361,16 @@ structure Shape where
   kind : Kind
   fields : List Field
   ancestors : List String
+  /-- `__qualname__` (= `name` for a module-level class) -/
+  qualname : String
 deriving DecidableEq, Repr
+
+/-- a module-level class: `__qualname__ = __name__` -/
+def Shape.top (module name : String) (kind : Kind) (fields : List Field) (ancestors : List String) : Shape :=
+  { module := module, name := name, kind := kind, fields := fields, ancestors := ancestors, qualname := name }
+
+/-- `_serialize_event_type`: `__module__ + "." + __qualname__` -/
+def Shape.typeQual (c : Shape) : String := c.module ++ "." ++ c.qualname
 
 /-- `get_qualified_name` / `_get_qualified_name`: `__module__ + "." + __name__` -/
 def Shape.qual (c : Shape) : String := c.module ++ "." ++ c.name
@@ -504,6 +513,9 @@ def unwrapModel (cenv : CEnv) (xenv : XEnv) (kvs : Dict) : Except Err Inst :=
       | some v => modelValidate xenv c v
       | none => .error .keyError
     | none => .error .importError
+  -- `"." not in qualified_name` on a list / dict (that does not contain ".") is true: `ValueError`
+  | some (.arr _) => .error .importError
+  | some (.obj _) => .error .importError
   | _ => .error .badQualName
 
 def looksPydantic (kvs : Dict) : Bool :=
@@ -713,7 +725,6 @@ structure Tick where
   vals : List TVal
 deriving DecidableEq, Repr
 
-/-- `_serialize_event_type`: `__module__ + "." + __qualname__` (module-level classes) -/
 def encodeS : FKind → SVal → Except Err Json
   | .scalar _, .json j => .ok j
   | .event, .event e => .ok (wrapModel e)
@@ -722,7 +733,7 @@ def encodeS : FKind → SVal → Except Err Json
   | .exc, .exc x => .ok (encodeExc x)
   | .optExc, .exc x => .ok (encodeExc x)
   | .optExc, .none => .ok .null
-  | .evType, .evType c => .ok (.str c.qual)
+  | .evType, .evType c => .ok (.str c.typeQual)
   | _, _ => .error .illTyped
 
 def decodeS (cenv : CEnv) (xenv : XEnv) : FKind → Json → Except Err SVal
